@@ -10,6 +10,7 @@
 #include <thread>
 
 #include "../traits/rktraits.h"
+#include "../verif_hooks.h"
 
 #include "schedule.h"
 #include "tasking_system_init.h"
@@ -78,21 +79,31 @@ namespace rkcommon {
       loop                             = l;
 
       auto mainLoop = [l, fcn]() {
+        RKCOMMON_VERIF_SCOPE("L_exit", l.get());
+        RKCOMMON_VERIF_POINT("L_top", l.get());
         while (l->threadShouldBeAlive) {
           if (!l->threadShouldBeAlive)
             return;
 
+          RKCOMMON_VERIF_POINT("L_chk", l.get());
           if (l->shouldBeRunning) {
+            RKCOMMON_VERIF_POINT("L_pub", l.get());
             l->insideLoopBody = true;
+            RKCOMMON_VERIF_POINT("L_body", l.get());
             fcn();
+            RKCOMMON_VERIF_POINT("L_clr", l.get());
             l->insideLoopBody = false;
           } else {
+            RKCOMMON_VERIF_POINT("L_lock", l.get());
             std::unique_lock<std::mutex> lock(l->runningMutex);
             l->runningCond.wait(lock, [&] {
+              RKCOMMON_VERIF_POINT_UNLOCKED("L_pred", l.get(), lock);
+              RKCOMMON_VERIF_SCOPE("L_predexit", l.get());
               return l->shouldBeRunning.load() ||
                      !l->threadShouldBeAlive.load();
             });
           }
+          RKCOMMON_VERIF_POINT("L_top", l.get());
         }
       };
 
@@ -111,38 +122,52 @@ namespace rkcommon {
       // are atomic, because we need to sync with the condition variable waiting
       // state on the async thread. Otherwise we might signal and the thread
       // will miss it, since it wasn't watching.
+      RKCOMMON_VERIF_POINT("D_lock", loop.get());
       {
         std::unique_lock<std::mutex> lock(loop->runningMutex);
         loop->threadShouldBeAlive = false;
+        RKCOMMON_VERIF_POINT("D_mid", loop.get());
         loop->shouldBeRunning     = false;
       }
+      RKCOMMON_VERIF_POINT("D_notify", loop.get());
       loop->runningCond.notify_one();
+      RKCOMMON_VERIF_POINT("D_join", loop.get());
 
       if (backgroundThread.joinable()) {
         backgroundThread.join();
       }
+      RKCOMMON_VERIF_POINT("D_ret", loop.get());
     }
 
     inline void AsyncLoop::start()
     {
+      RKCOMMON_VERIF_SCOPE("T_ret", loop.get());
+      RKCOMMON_VERIF_POINT("T_chk", loop.get());
       if (!loop->shouldBeRunning) {
         // Note that the mutex here is still required even though these vars
         // are atomic, because we need to sync with the condition variable
         // waiting state on the async thread. Otherwise we might signal and the
         // thread will miss it, since it wasn't watching.
+        RKCOMMON_VERIF_POINT("T_lock", loop.get());
         {
           std::unique_lock<std::mutex> lock(loop->runningMutex);
           loop->shouldBeRunning = true;
         }
+        RKCOMMON_VERIF_POINT("T_notify", loop.get());
         loop->runningCond.notify_one();
       }
     }
 
     inline void AsyncLoop::stop()
     {
+      RKCOMMON_VERIF_SCOPE("S_ret", loop.get());
+      RKCOMMON_VERIF_POINT("S_chk", loop.get());
       if (loop->shouldBeRunning) {
+        RKCOMMON_VERIF_POINT("S_clr", loop.get());
         loop->shouldBeRunning = false;
+        RKCOMMON_VERIF_POINT("S_spin", loop.get());
         while (loop->insideLoopBody.load()) {
+          RKCOMMON_VERIF_POINT("S_spin", loop.get());
           std::this_thread::yield();
         }
       }
